@@ -301,6 +301,10 @@ def part_caller(n, seed):
             opts["specify_target_noise"] = True
         if mode == "declared":
             opts["noise_size"] = np.array([0.3])
+        # vary which keys the caller's dict has (a missing key invites setdefault/update on the caller's object)
+        for kdrop in ("display", "random_seed", "search_method", "noise_nudge", "noise_final_samples"):
+            if rs.rand() < 0.35:
+                opts.pop(kdrop, None)
         keys0 = list(opts.keys())
         vals0 = {k: copy.deepcopy(v) for k, v in opts.items()}
         ids0 = {k: id(v) for k, v in opts.items()}
